@@ -107,9 +107,36 @@ def cross_reference(text):
     return problems
 
 
+def _with_second_configuration(specs):
+    """each accelerator specification with its (first) configuration repeated under a second configuration name that no
+    Einsum uses: the same component names then exist in two configurations"""
+    import copy
+    import io
+    from ruamel.yaml import YAML
+    out = []
+    for name, txt in specs:
+        try:
+            doc = YAML(typ="safe").load(txt)
+            cfgs = list(doc["architecture"])
+        except Exception:      # noqa
+            continue
+        if len(cfgs) != 1:
+            continue
+        doc["architecture"]["second_" + cfgs[0]] = copy.deepcopy(doc["architecture"][cfgs[0]])
+        buf = io.StringIO()
+        y = YAML(typ="safe")
+        y.default_flow_style = False
+        y.dump(doc, buf)
+        out.append((name + " ~ configuration repeated under a second name", buf.getvalue()))
+    return out
+
+
 def bounded(uni, tier, seed):
     ev, fails, samples, distinct = 0, [], [], set()
-    for name, txt in common.accelerator_variants(tier):
+    base = list(common.accelerator_variants(tier))
+    second = _with_second_configuration(common.accelerator_specs())
+    from props import accel_family
+    for name, txt in base + second + accel_family.specs(tier):
         try:
             text = str(common.compile_full(txt))
         except Exception:      # noqa
@@ -121,14 +148,18 @@ def bounded(uni, tier, seed):
             samples.append({"spec": name, "csv_names": len(set(re.findall(r'"([^"]*\.csv)"', text))),
                             "sections": text.count("Metrics.beginCollect(")})
         if probs:
-            fails.append({"name": "bounded/trace-cross-reference", "detail": "%s: %s" % (name, probs[0]),
+            cause = " cause=one-component-name-in-two-configurations" if (name, txt) in second else ""
+            fails.append({"name": "bounded/trace-cross-reference", "detail": "%s: %s%s" % (name, probs[0], cause),
                           "witness": {"spec": name, "problems": probs[:5], "yaml": txt[:1500]}})
     return {"evaluations": ev, "distinct_nontrivial": len(distinct), "failures": fails, "samples": samples,
             "rule": "emitted metrics-mode text of every accelerator specification of the repository (integration YAMLs + "
                     "YAML literals of the tests, default all-temporal spacetime filled in where missing), of two "
                     "index-math specifications (convolution / strided access with a buffered input) and of every "
                     "single-point variant of these (style of one buffer binding flipped lazy <-> eager, type of one "
-                    "intersector changed) that the compiler accepts: one "
+                    "intersector changed) that the compiler accepts, and of each repository specification with its "
+                    "configuration repeated under a second, unused configuration name, and of a generated matrix-multiply "
+                    "family (props/accel_family.py: K unpartitioned / shape / occupancy split x intersector type x layout "
+                    "of A's K rank x coord/payload/elem bound in cache / buffet / both x style): one "
                     "begin/endCollect bracket per Einsum around its loops; every .csv consumed after endCollect "
                     "(traces dictionary, filterTrace inputs, numIters) is a registered <prefix>-<rank>-<type>.csv or an "
                     "earlier filterTrace output; consumeTrace only on consumable registrations; intersectors created "
